@@ -38,14 +38,20 @@ def run(chk):
                         'insert with several items uses non-negative indices (a negative index with several items is not "the requested index")']
 
 
-def replay(chk, path):
+def replay(chk, path, clause='C05'):
+    """re-run one recorded history on the real tree and let TLC (EditsTrace) judge it against the reference model"""
     case = json.load(open(path))
-    rec = {'i': case['input'] if isinstance(case['input'], list) else list(map(str, [])), 'h': []}
     from harness.tlc import to_atoms
-    rec['i'] = to_atoms(case['input'])
     from TexSoup import TexSoup
     soup = TexSoup(case['input'])
+    E.observe(soup)
+    h = []
     for op in case['history']:
         err = E.apply_op(soup, op)
+        o = E.observe(soup) if not err else {'t': to_atoms('<' + err + '>'), 'cnt': [], 'tv': [], 'ds': []}
+        h.append({'op': op, 't': o['t'], 'cnt': o['cnt'], 'tv': o['tv'], 'ds': o['ds'], 'err': err, 'cons': E.consistency(soup) if not err else []})
         print(json.dumps({'op': E.show_op(op), 'error': err, 'text': str(soup)}))
-    return 0
+        if err:
+            break
+    E.validate(chk, [{'i': to_atoms(case['input']), 'h': h}], clause)
+    return chk.finish()
